@@ -170,6 +170,7 @@ func cmdOpFront(args []string) error {
 		// queue content: mixed routes, states, timestamps with ties
 		nm := 4 + r.intn(10)
 		var ids []string
+		var recvs []time.Time
 		for i := 0; i < nm; i++ {
 			id := fmt.Sprintf("m%02d", i)
 			ids = append(ids, id)
@@ -179,6 +180,7 @@ func cmdOpFront(args []string) error {
 			if st == queue.StateDead {
 				env.DeadReason = "max_retries"
 			}
+			recvs = append(recvs, env.ReceivedAt)
 			if err := store.Enqueue(env); err != nil {
 				return fmt.Errorf("seed %s: %w", id, err)
 			}
@@ -278,6 +280,10 @@ func cmdOpFront(args []string) error {
 				t := base.Add(-time.Duration(r.intn(6)) * time.Minute)
 				if r.chance(50) {
 					t = t.Add(time.Duration(1+r.intn(999)) * time.Millisecond) // a cursor as listings return it: with a fraction
+				}
+				if r.chance(40) {
+					// just after one of the messages, inside the same second: a cursor that loses its fraction no longer covers it
+					t = pick(r, recvs).Add(time.Duration(pick(r, []int{1, 100, 240})) * time.Millisecond)
 				}
 				f.Before = t.UnixNano()
 				argsM["before"] = t.Format(time.RFC3339Nano)
